@@ -67,8 +67,10 @@ def isOk {ε α : Type} : Except ε α → Bool
   | .ok _ => true
   | .error _ => false
 
-/-- the trust DB query of `getChains` (`sqlite.Chains`): subject IA, subject key id, and
-`not_before <= q.NotBefore ∧ not_after >= q.NotAfter` -/
+/-- the chains `Verifier.Verify` tries: the trust DB query of `getChains` (`sqlite.Chains`: subject
+IA, subject key id, `not_before <= q.NotBefore ∧ not_after >= q.NotAfter`) followed by the
+verifier's own check `chainValidity(c).Covers(v.BoundValidity)` — exact time comparison, and
+independent of `Verifier.Cache`, which is keyed by (IA, subject key id) only -/
 def chains {PK : Type} (certs : List (Cert PK)) (k : KeyId) (nb na : Int) : List (Cert PK) :=
   certs.filter fun c => c.ia == k.ia && c.skid == k.skid && decide (c.nb ≤ nb) && decide (na ≤ c.na)
 
